@@ -8,7 +8,10 @@ import (
 	"crypto/sha1"
 	"crypto/sha256"
 	"encoding/hex"
+	"errors"
 	"fmt"
+	"io"
+	"os"
 	"sort"
 	"strconv"
 	"strings"
@@ -45,11 +48,14 @@ func ParseTree(w []string) (*stores.Node, []string, bool) {
 		n.Max = v
 	}
 	rest := w[1:]
-	arity := map[string]int{"mem": 0, "memcache": 0, "localdisk": 0, "diskpacked": 0, "ns": 1, "proxy": 2,
-		"overlay": 2, "shard": 2, "replica": 2, "cond": 2, "shard3": 3, "replica3": 3}[kind]
-	if _, ok := map[string]bool{"mem": true, "memcache": true, "localdisk": true, "diskpacked": true, "ns": true,
-		"proxy": true, "overlay": true, "shard": true, "replica": true, "cond": true, "shard3": true, "replica3": true}[kind]; !ok {
+	arities := map[string]int{"mem": 0, "memcache": 0, "localdisk": 0, "diskpacked": 0, "encrypt": 0, "blobpacked": 0,
+		"ns": 1, "proxy": 2, "overlay": 2, "shard": 2, "replica": 2, "cond": 2, "shard3": 3, "replica3": 3, "union": 2, "union3": 3}
+	arity, ok := arities[kind]
+	if !ok {
 		return nil, nil, false
+	}
+	if kind == "union3" {
+		n.Kind = "union"
 	}
 	if kind == "shard3" {
 		n.Kind = "shard"
@@ -70,7 +76,7 @@ func ParseTree(w []string) (*stores.Node, []string, bool) {
 
 func treeTokens(n *stores.Node) string {
 	k := n.Kind
-	if (k == "shard" || k == "replica") && len(n.Kids) == 3 {
+	if (k == "shard" || k == "replica" || k == "union") && len(n.Kids) == 3 {
 		k += "3"
 	}
 	if n.Max != 0 {
@@ -160,6 +166,38 @@ func (st *execState) exec(w []string) string {
 			return "err"
 		}
 		return "ok"
+	case "subrecv", "subrm":
+		// receive into / remove from the i-th sub-store of a root-level union (which is read-only itself)
+		if len(w) < 3 || st.root == nil || st.root.Kind != "union" {
+			return "bad-op"
+		}
+		i, err := strconv.Atoi(w[1])
+		if err != nil || i < 0 || i >= len(st.env.KidsOf[st.root]) {
+			return "bad-op"
+		}
+		sub := st.env.KidsOf[st.root][i]
+		refs, ok := refsOf(w[2:3])
+		if !ok {
+			return "bad-op"
+		}
+		if w[0] == "subrm" {
+			if err := sub.RemoveBlobs(ctx, refs); err != nil {
+				return "err"
+			}
+			return "ok"
+		}
+		if len(w) != 4 {
+			return "bad-op"
+		}
+		v, ok2 := hk.UnHex(w[3])
+		if !ok2 {
+			return "bad-op"
+		}
+		sb, err2 := blobserver.Receive(ctx, sub, refs[0], bytes.NewReader(v))
+		if err2 != nil {
+			return "err"
+		}
+		return fmt.Sprintf("sized %d", sb.Size)
 	case "recv":
 		if len(w) != 3 {
 			return "bad-op"
@@ -174,6 +212,40 @@ func (st *execState) exec(w []string) string {
 			return "err"
 		}
 		return fmt.Sprintf("sized %d", sb.Size)
+	case "sub":
+		if len(w) != 4 {
+			return "bad-op"
+		}
+		refs, ok := refsOf(w[1:2])
+		off, err1 := strconv.ParseInt(w[2], 10, 64)
+		ln, err2 := strconv.ParseInt(w[3], 10, 64)
+		if !ok || err1 != nil || err2 != nil {
+			return "bad-op"
+		}
+		sf, ok := st.sto.(blob.SubFetcher)
+		if !ok {
+			return "unimpl"
+		}
+		rc, err := sf.SubFetch(ctx, refs[0], off, ln)
+		if err != nil {
+			switch {
+			case errors.Is(err, blob.ErrUnimplemented):
+				return "unimpl"
+			case errors.Is(err, blob.ErrNegativeSubFetch):
+				return "neg"
+			case errors.Is(err, blob.ErrOutOfRangeOffsetSubFetch):
+				return "range"
+			case errors.Is(err, os.ErrNotExist):
+				return "notexist"
+			}
+			return "err"
+		}
+		defer rc.Close()
+		all, err := io.ReadAll(rc)
+		if err != nil {
+			return "err"
+		}
+		return "bytes " + hk.Hex(all)
 	case "fetch":
 		refs, ok := refsOf(w[1:])
 		if !ok || len(refs) != 1 {
@@ -314,24 +386,41 @@ func genTree(r *hk.Rand, depth int, asCache bool) *stores.Node {
 }
 
 type caseRun struct {
-	r     *hk.Run
-	ex    func([]string) string
-	ref   map[string][]byte // the reference map (oracle)
-	pool  []blobT
-	label string
-	shape string
+	r                       *hk.Run
+	ex                      func([]string) string
+	ref                     map[string][]byte // the reference map (oracle)
+	pool                    []blobT
+	label                   string
+	shape                   string
 	sawRmRecv, sawOddCursor bool
-	removed map[string]bool
+	removed                 map[string]bool
+	noModel                 bool                    // oracle-only case: the op lines are not sent to the Lean model
+	unionN                  int                     // > 0: root is a read-only union over unionN sub-stores; writes go to a sub-store
+	where                   map[string]map[int]bool // union: which sub-stores hold a key
+	log                     []string
 }
 
 func (c *caseRun) op(line string) string {
 	out := c.ex(strings.Fields(line))
+	if c.noModel {
+		f, _, _ := strings.Cut(line, " ")
+		c.r.ImplOnly(f)
+		c.log = append(c.log, line)
+		return out
+	}
 	c.r.Op(line, out)
 	return out
 }
 
+func (c *caseRun) ops() []string {
+	if c.noModel {
+		return append([]string(nil), c.log...)
+	}
+	return c.r.CaseOps()
+}
+
 func (c *caseRun) fail(sig, detail, want, got string) {
-	c.r.Fail(sig, c.label+": "+detail, want, got, c.r.CaseOps())
+	c.r.Fail(sig, c.label+": "+detail, want, got, c.ops())
 }
 
 func (c *caseRun) sortedKeys() []string {
@@ -387,7 +476,42 @@ func (c *caseRun) step(rnd *hk.Rand) {
 	r := c.r
 	b := c.pool[rnd.Intn(len(c.pool))]
 	hk_ := hk.Hex([]byte(b.key))
-	switch x := rnd.Intn(100); {
+	x := rnd.Intn(100)
+	if x >= 88 && c.label == "encrypt" {
+		// the encrypting store does not support removal (RemoveBlobs is not implemented): the property
+		// speaks of removal only "where the backend supports removal"
+		if out := c.op("rm " + hk_); out != "err" {
+			c.fail("encrypt-remove-not-refused", "remove on a tree with an encrypt store", "err", out)
+		}
+		c.r.Hit("rm:unsupported-backend")
+		return
+	}
+	if c.unionN > 0 && (x < 30 || x >= 88) {
+		// the union itself is read-only: writes and removes go to one sub-store directly
+		i := rnd.Intn(c.unionN)
+		if x < 30 {
+			if out := c.op(fmt.Sprintf("subrecv %d %s %s", i, hk_, hk.Hex(b.val))); out != fmt.Sprintf("sized %d", len(b.val)) {
+				c.fail("receive-wrong-answer", "receive of "+b.key, "sized", out)
+			}
+			if c.where[b.key] == nil {
+				c.where[b.key] = map[int]bool{}
+			}
+			c.where[b.key][i] = true
+			c.ref[b.key] = b.val
+		} else {
+			c.op(fmt.Sprintf("subrm %d %s", i, hk_))
+			delete(c.where[b.key], i)
+			if len(c.where[b.key]) == 0 {
+				delete(c.ref, b.key)
+			}
+			// the union must refuse writes and removes
+			if out := c.op("rm " + hk_); out != "err" {
+				c.fail("union-accepts-remove", "remove through a read-only union", "err", out)
+			}
+		}
+		return
+	}
+	switch {
 	case x < 30:
 		out := c.op("recv " + hk_ + " " + hk.Hex(b.val))
 		want := fmt.Sprintf("sized %d", len(b.val))
@@ -398,6 +522,52 @@ func (c *caseRun) step(rnd *hk.Rand) {
 			c.sawRmRecv = true
 		}
 		c.ref[b.key] = b.val
+	case x < 38:
+		// ranged fetch, where the root implements blob.SubFetcher
+		off := int64(rnd.Intn(len(b.val) + 3))
+		ln := int64(rnd.Intn(len(b.val) + 3))
+		switch rnd.Intn(12) {
+		case 0:
+			off = -1
+		case 1:
+			ln = -1
+		case 2:
+			off, ln = 0, int64(len(b.val))
+		case 3:
+			off = int64(len(b.val))
+		case 4:
+			off = int64(len(b.val)) + 1
+		}
+		line := fmt.Sprintf("sub %s %d %d", hk_, off, ln)
+		out := c.ex(strings.Fields(line))
+		if out == "unimpl" {
+			c.r.ImplOnly("sub-unimplemented")
+			return
+		}
+		if c.noModel {
+			c.r.ImplOnly("sub")
+			c.log = append(c.log, line)
+		} else {
+			c.r.Op(line, out)
+		}
+		c.r.Hit("subfetch:" + strings.Fields(out)[0])
+		want := "notexist"
+		if off < 0 || ln < 0 {
+			want = "neg"
+		} else if v, ok := c.ref[b.key]; ok {
+			if off > int64(len(v)) {
+				want = "range"
+			} else {
+				end := off + ln
+				if end > int64(len(v)) {
+					end = int64(len(v))
+				}
+				want = "bytes " + hk.Hex(v[off:end])
+			}
+		}
+		if out != want {
+			c.fail("subfetch-mismatch", fmt.Sprintf("SubFetch(%s, %d, %d)", b.key, off, ln), trunc(want), trunc(out))
+		}
 	case x < 50:
 		out := c.op("fetch " + hk_)
 		want := "notexist"
@@ -583,7 +753,51 @@ func Run(r *hk.Run) {
 		}
 		c.ex([]string{"cfg"}) // releases the temp dir (bad-op answer ignored)
 	}
+	oracleOnly(r)
 	probes(r)
+}
+
+// oracleOnly runs the same histories on backends that have no Lean model behind the C01 driver
+// (n-ary shard/replica, read-only union, blobpacked and encrypt leaves): reference map only.
+func oracleOnly(r *hk.Run) {
+	rnd := r.R
+	specs := []string{"shard3 mem localdisk diskpacked:300", "replica3 mem mem localdisk", "union mem mem", "union3 mem localdisk mem",
+		"encrypt", "blobpacked", "overlay blobpacked mem", "ns blobpacked", "ns encrypt", "shard blobpacked mem", "overlay encrypt mem",
+		"proxy:300 blobpacked memcache:100"}
+	rounds, nOps := 1, 120
+	if r.Thorough() {
+		rounds, nOps = 8, 400
+	}
+	for round := 0; round < rounds; round++ {
+		for _, spec := range specs {
+			n, _, ok := ParseTree(strings.Fields(spec))
+			if !ok {
+				r.Note("bad oracle-only spec " + spec)
+				continue
+			}
+			c := &caseRun{r: r, ex: NewExec(), ref: map[string][]byte{}, label: n.String(), shape: n.Shape(), removed: map[string]bool{},
+				noModel: true, where: map[string]map[int]bool{}}
+			if n.Kind == "union" {
+				c.unionN = len(n.Kids)
+			}
+			for i := 0; i < 5+rnd.Intn(8); i++ {
+				c.pool = append(c.pool, mkBlob(rnd, rnd.Intn(6)))
+			}
+			if out := c.op("cfg mem // " + spec); out != "ok" {
+				r.Note("cannot build " + spec + ": " + out)
+				continue
+			}
+			r.Hit("oracle-only-root:" + n.Kind)
+			for i := 0; i < nOps/2+rnd.Intn(nOps); i++ {
+				c.step(rnd)
+			}
+			for _, l := range []int{1, 3, 1000} {
+				c.paging(l)
+			}
+			r.Distinct("oracle-only:" + c.shape)
+			c.ex([]string{"cfg"})
+		}
+	}
 }
 
 func probes(r *hk.Run) {
